@@ -534,6 +534,15 @@ def flag_read(f, sw):
             op, bb = rv["o"], b
         elif rv["k"] == "un" and rv["op"] == "Not":
             op, bb, neg = rv["a"], b, not neg
+        elif rv["k"] == "bin" and rv["op"] in ("Eq", "Ne"):
+            # `flag == false` / `flag != true` spellings of the same test
+            x, y = rv["a"], rv["b"]
+            if "c" in x:
+                x, y = y, x
+            if "c" not in y or "v" not in y or "c" in x:
+                return None
+            same = (int(y["v"]) == 1) == (rv["op"] == "Eq")
+            op, bb, neg = x, b, (neg if same else not neg)
         else:
             return None
     return None
